@@ -439,12 +439,16 @@ X86_GPR64 = ["rax", "rbx", "rcx", "rdx", "rsi", "rdi", "rbp", "rsp"] + ["r%d" % 
 X86_GPR32 = ["eax", "ebx", "ecx", "edx", "esi", "edi", "ebp", "esp"] + ["r%dd" % i for i in range(8, 16)]
 
 
+_BITS = [0, 1, 3, 4, 7, 8, 12, 16, 31, 32, 33, 48, 63, 64]
+
+
 def _rand_mag(rnd, maxbits=64):
-    bits = rnd.choice([0, 1, 3, 4, 7, 8, 12, 16, 31, 32, 33, 48, 63, 64][: [0, 1, 3, 4, 7, 8, 12, 16, 31, 32, 33, 48, 63, 64].index(maxbits) + 1]
-                      if maxbits in (16, 32, 64) else [0, 4, 8, 12])
+    """random magnitude of a seeded bit length <= maxbits (boundary lengths included)"""
+    bits = rnd.choice([b for b in _BITS if b <= maxbits])
     if bits == 0:
         return 0
-    return rnd.getrandbits(bits) | (1 << (bits - 1)) if rnd.random() < 0.5 else rnd.getrandbits(bits)
+    v = rnd.getrandbits(bits)
+    return v | (1 << (bits - 1)) if rnd.random() < 0.5 else v
 
 
 def _rand_num(rnd, maxbits=64, allow_neg=True):
